@@ -446,10 +446,11 @@ def c11(ctx):
     # I->S at real constants: pair offsets up to 254, occurrences in the last overlapping chunk; TLC checks the C11 predicate
     lib_traces(ctx, "pre", "pre", "all", 1500 if ctx.quick else 15000, "pre", forces=("avx2",))
     ctx.evaluations += sum_exec(ctx, ["pp_scaled_exec", "pp_real_exec", "prefilter_exec", "miri_exec"])
+    extra = tlaps_supplement(ctx, "PackedPairPrefilterUnbounded", ("Basic", "OccInRange", "InitInv", "NextInv", "Safety"))
     return C.finish(ctx, "model_checking",
                     "MC_PackedPair: all needles x every ordered pair of distinct offsets x all haystack contents for every length 0..minLen+Extra, both mask kinds "
                     "(the NEON under-masking is modelled as the code has it); invariants prefilter <= FindSub, None => absent, candidate has both pair bytes, "
-                    "prefilter = its F-spec, loads in bounds; replayed on the real generic code at VB=2,4 and padded on SSE2/AVX2/portable finders")
+                    "prefilter = its F-spec, loads in bounds; replayed on the real generic code at VB=2,4 and padded on SSE2/AVX2/portable finders", extra_cov=extra)
 
 
 def c19(ctx):
